@@ -83,14 +83,21 @@ def _sigkey(v):
     return (v["clause"], json.dumps(v.get("sig", {}), sort_keys=True, default=repr))
 
 
-def shrink(mod, seed, tape, target, tier, max_evals=300, max_s=40.0):
-    """Tape-level shrinking while the same (clause, signature) violation persists."""
+def shrink(mod, seed, tape, target, tier, max_evals=400, max_s=40.0):
+    """Tape-level shrinking while the same (clause, signature) violation persists.
+
+    Passes, cheapest first: drop whole streams (schedule, configuration, then all per-position data
+    streams at once), then per stream zero spans (keeps later draws aligned), delete spans, and
+    zero single entries.  A tape that runs out yields 0, the simplest choice."""
     t0 = time.time()
     evals = [0]
     want = _sigkey(target)
 
+    def out_of_budget():
+        return evals[0] >= max_evals or time.time() - t0 > max_s
+
     def test(cand):
-        if evals[0] >= max_evals or time.time() - t0 > max_s:
+        if out_of_budget():
             return None
         evals[0] += 1
         r = safe_run(mod, seed, cand, tier)
@@ -99,53 +106,103 @@ def shrink(mod, seed, tape, target, tier, max_evals=300, max_s=40.0):
                 return r
         return None
 
-    best = {k: list(v) for k, v in tape.items()}
-    order = [s for s in ("sched", "fault", "ops", "cfg", "data", "vars", "doc", "schema") if s in best]
-    order += [s for s in best if s not in order]
-    improved = True
-    rounds = 0
-    while improved and rounds < 3:
+    state = {"best": {k: (list(v) if not k.startswith("@") else v) for k, v in tape.items()}}
+
+    def accept(r, cand):
+        state["best"] = {k: (list(v) if not k.startswith("@") else v) for k, v in (r.get("tape") or cand).items()}
+
+    def try_cand(cand):
+        r = test(cand)
+        if r is not None:
+            accept(r, cand)
+            return True
+        return False
+
+    def group(prefixes):
+        return [k for k in state["best"] if any(k == p or k.startswith(p) for p in prefixes)]
+
+    # A. whole groups of streams
+    for prefixes in (("sched",), ("cfg",), ("data",), ("fault",), ("vars",), ("solo", "after", "twin", "fresh", "probe")):
+        ks = group(prefixes)
+        if ks and any(state["best"][k] for k in ks):
+            cand = {k: v for k, v in state["best"].items() if k not in ks}
+            try_cand(cand)
+    # B. single streams dropped
+    for k in sorted(state["best"], key=lambda k: (len(state["best"][k]), k)):
+        if out_of_budget():
+            break
+        if k in state["best"] and state["best"][k] and not k.startswith("@"):
+            cand = {k2: v for k2, v in state["best"].items() if k2 != k}
+            try_cand(cand)
+
+    def order():
+        b = state["best"]
+        first = [k for k in b if k.startswith(("sched", "cfg", "fault", "ops", "hist", "mut", "rewrite", "files", "glob", "ext", "intro", "vars"))]
+        mid = [k for k in b if k.startswith("data")]
+        last = [k for k in b if k.startswith(("doc", "schema"))]
+        rest = [k for k in b if k not in first + mid + last and not k.startswith("@")]
+        return sorted(first) + sorted(rest) + sorted(mid) + sorted(last)
+
+    for rounds in range(2):
         improved = False
-        rounds += 1
-        for stream in order:
-            vals = best.get(stream, [])
-            # 1. truncate / delete spans
-            size = max(1, len(vals) // 2)
-            while size >= 1 and vals:
-                i = 0
-                while i < len(vals):
-                    cand = dict(best)
-                    cand[stream] = vals[:i] + vals[i + size:]
-                    r = test(cand)
-                    if r is not None:
-                        best = {k: list(v) for k, v in (r.get("tape") or cand).items()}
-                        vals = best.get(stream, [])
-                        improved = True
-                    else:
-                        i += size
-                    if evals[0] >= max_evals or time.time() - t0 > max_s:
-                        break
-                if evals[0] >= max_evals or time.time() - t0 > max_s:
-                    break
-                size //= 2
-            # 2. zero single entries
-            vals = best.get(stream, [])
-            for i in range(len(vals)):
-                if i >= len(best.get(stream, [])):
-                    break
-                if best[stream][i] == 0:
-                    continue
-                cand = dict(best)
-                cand[stream] = list(best[stream])
-                cand[stream][i] = 0
-                r = test(cand)
-                if r is not None:
-                    best = {k: list(v) for k, v in (r.get("tape") or cand).items()}
-                    improved = True
-                if evals[0] >= max_evals or time.time() - t0 > max_s:
-                    break
-            if evals[0] >= max_evals or time.time() - t0 > max_s:
+        for stream in order():
+            if out_of_budget():
                 break
+            for mode in ("zero", "delete"):
+                vals = state["best"].get(stream, [])
+                size = max(1, len(vals) // 2)
+                while size >= 1 and vals and not out_of_budget():
+                    i = 0
+                    while i < len(vals) and not out_of_budget():
+                        if mode == "zero":
+                            if not any(vals[i:i + size]):
+                                i += size
+                                continue
+                            nv = vals[:i] + [0] * len(vals[i:i + size]) + vals[i + size:]
+                        else:
+                            nv = vals[:i] + vals[i + size:]
+                        cand = dict(state["best"])
+                        cand[stream] = nv
+                        if try_cand(cand):
+                            improved = True
+                            vals = state["best"].get(stream, [])
+                            if mode == "zero":
+                                i += size
+                        else:
+                            i += size
+                    if size == 1:
+                        break
+                    size //= 2
+                    if len(vals) > 64 and size < len(vals) // 16:
+                        break  # long structural streams: coarse passes only
+        if not improved:
+            break
+    # C. model-level reduction of the document (checks built on gen_case): remove selections,
+    #    directives, fragments, operations while the violation persists; the reduced model is stored
+    #    in the replay tape under "@doc" and replaces the generated document on replay
+    r0 = safe_run(mod, seed, state["best"], tier)
+    model = next((r0.get("doc_model") for _ in [0] if r0.get("doc_model")), None)
+    if model is not None and any(_sigkey(v) == want for v in r0.get("viol", [])):
+        from simv.model.document import doc_reductions
+        t1 = time.time()
+        budget_s = max_s
+        progress = True
+        while progress and time.time() - t1 < budget_s:
+            progress = False
+            for cand_model in doc_reductions(model):
+                if time.time() - t1 > budget_s:
+                    break
+                cand = dict(state["best"])
+                cand["@doc"] = cand_model
+                evals[0] += 1
+                r = safe_run(mod, seed, cand, tier)
+                if any(_sigkey(v) == want for v in r.get("viol", [])):
+                    model = cand_model
+                    state["best"] = {k: (list(v) if not k.startswith("@") else v) for k, v in (r.get("tape") or cand).items()}
+                    state["best"]["@doc"] = cand_model
+                    progress = True
+                    break
+    best = {k: v for k, v in state["best"].items() if v}
     final = safe_run(mod, seed, best, tier, want_case=True)
     ok = any(_sigkey(v) == want for v in final.get("viol", []))
     if not ok:
@@ -325,9 +382,9 @@ def run_check(check_id, tier="quick", base_seed=0, jobs=None, budget_s=None, run
         tape = r.get("tape") or {}
         no_shrink = os.environ.get("VERIF_NO_SHRINK")
         budget_total = 45 if tier == "quick" else 240
-        if not no_shrink and time.time() - t_min < budget_total and n_min < 6:
+        if not no_shrink and time.time() - t_min < budget_total and n_min < 4:
             n_min += 1
-            best, final, evals = shrink(mod, r["seed"], tape, v, tier, max_s=12.0 if tier == "quick" else 45.0)
+            best, final, evals = shrink(mod, r["seed"], tape, v, tier, max_s=20.0 if tier == "quick" else 60.0)
         else:
             best, final, evals = tape, safe_run(mod, r["seed"], tape, tier, want_case=True), 0
         vv = next((x for x in final.get("viol", []) if _sigkey(x) == key), v)
